@@ -134,18 +134,17 @@ Proof.
 Qed.
 
 (* ---------------------------------------------------------------- precedence *)
-(* outside the class the search loop returns what the configuration file says *)
-Lemma search_the_file f ps : kf_file_invalid_in f ps = false ->
+(* the search loop returns what the configuration file says *)
+Lemma search_the_file f ps :
   search f ps = match the_file f ps with
                 | Some d => match load_doc d with Some c => c | None => dflt end
                 | None => dflt
                 end.
 Proof.
-  induction ps as [|p r IH]; intros Hk; [reflexivity|].
-  cbn [search the_file kf_file_invalid_in] in *. unfold fs_exists, from_tauri_config.
-  destruct (fs_get f p) as [[| |[d|]|o]|] eqn:Eg; try (apply IH; exact Hk).
-  destruct (load_doc d) as [c|]; [|reflexivity].
-  destruct (validate f c); [discriminate|reflexivity].
+  induction ps as [|p r IH]; [reflexivity|].
+  cbn [search the_file]. unfold fs_exists, from_tauri_config_unvalidated.
+  destruct (fs_get f p) as [[| |[d|]|o]|] eqn:Eg; try exact IH.
+  destruct (load_doc d) as [c|]; reflexivity.
 Qed.
 
 Lemma load_doc_section d : load_doc d = option_map config_of_section (get P d).
@@ -154,16 +153,15 @@ Proof. unfold load_doc. destruct (get P d); reflexivity. Qed.
 Definition loaded_or_default (sec : option json) : config :=
   match sec with Some tg => config_of_section tg | None => dflt end.
 
-Lemma search_section f : kf_file_invalid f = false ->
-  search f cands = loaded_or_default (file_section f cands).
+Lemma search_section f : search f cands = loaded_or_default (file_section f cands).
 Proof.
-  intros Hk. unfold kf_file_invalid in Hk. rewrite (search_the_file f cands Hk).
+  rewrite (search_the_file f cands).
   unfold file_section, loaded_or_default. destruct (the_file f cands) as [d|]; [|reflexivity].
   rewrite load_doc_section. destruct (get P d); reflexivity.
 Qed.
 
 (* the settings of a run, field by field, are flag over file over default *)
-Lemma eff_precedence fl sec : f_verbose fl = true \/ or_else (sec_bool sec "verbose") false = false ->
+Lemma eff_precedence fl sec :
   eff_of fl (apply_flags fl (loaded_or_default sec)) =
   let v := effective (flag_of (f_verbose fl)) (sec_bool sec "verbose") false in
   {| e_project := effective (f_project fl) (sec_str sec "projectPath") "./src-tauri";
@@ -173,7 +171,7 @@ Lemma eff_precedence fl sec : f_verbose fl = true \/ or_else (sec_bool sec "verb
      e_visualize := effective (flag_of (f_visualize fl)) (sec_bool sec "visualizeDeps") false;
      e_force := effective (flag_of (f_force fl)) (sec_bool sec "force") false |}.
 Proof.
-  intros Hv. destruct fl as [fp fo fv fvb fvz ff]. cbn [f_verbose] in Hv.
+  destruct fl as [fp fo fv fvb fvz ff].
   cbv zeta.
   unfold eff_of, apply_flags, effective, flag_of, loaded_or_default, sec_str, sec_bool, or_else in *.
   cbn [f_project f_output f_validation f_verbose f_visualize f_force
@@ -183,22 +181,15 @@ Proof.
     cbn [project_path output_path validation_library verbose visualize_deps force dflt].
     f_equal.
     + destruct fvb; [reflexivity|]. destruct (as_bool (get [PKey "verbose"] tg)); reflexivity.
-    + destruct fvb; [reflexivity|]. destruct Hv as [Hv|Hv]; [discriminate|].
-      destruct (as_bool (get [PKey "verbose"] tg)) as [b|]; cbn in Hv |- *; [subst b|]; reflexivity.
+    + destruct fvb; [reflexivity|]. destruct (as_bool (get [PKey "verbose"] tg)); reflexivity.
     + destruct fvz; [reflexivity|]. destruct (as_bool (get [PKey "visualizeDeps"] tg)); reflexivity.
     + destruct ff; [reflexivity|]. destruct (as_bool (get [PKey "force"] tg)); reflexivity.
   - cbn. destruct fp, fo, fv, fvb, fvz, ff; reflexivity.
 Qed.
 
 (* C19_precedence *)
-Theorem precedence f fl : kf_file_invalid f = false -> kf_verbose_file_only f fl = false ->
-  eff_of fl (apply_flags fl (search f cands)) = spec_eff f fl.
-Proof.
-  intros Hk Hv. rewrite (search_section f Hk). unfold spec_eff. apply eff_precedence.
-  unfold kf_verbose_file_only in Hv. apply andb_false_iff in Hv. destruct Hv as [Hv|Hv].
-  - left. apply negb_false_iff in Hv. exact Hv.
-  - right. exact Hv.
-Qed.
+Theorem precedence f fl : eff_of fl (apply_flags fl (search f cands)) = spec_eff f fl.
+Proof. rewrite (search_section f). unfold spec_eff. apply eff_precedence. Qed.
 
 (* the validity test of the run is the one of the specification *)
 Lemma validate_spec f fl c : validate f c = None <-> spec_invalid f (eff_of fl c) = false.
@@ -209,14 +200,14 @@ Proof.
 Qed.
 
 (* C19_generate_reject_first and the run case *)
-Theorem generate_spec f fl : kf_file_invalid f = false -> kf_verbose_file_only f fl = false ->
+Theorem generate_spec f fl :
   if spec_invalid f (spec_eff f fl)
   then exists e, run_generate f fl = RReject e f
   else (run_generate f fl = RNoCommands (spec_eff f fl) f /\ fs_get f (e_project (spec_eff f fl)) <> Some NProj)
        \/ exists f', run_generate f fl = RRun (spec_eff f fl) f' /\ fs_get f (e_project (spec_eff f fl)) = Some NProj
                      /\ forall p, norm p <> norm (e_output (spec_eff f fl)) -> fs_get f' p = fs_get f p.
 Proof.
-  intros Hk Hv. pose proof (precedence f fl Hk Hv) as Hp. unfold run_generate.
+  pose proof (precedence f fl) as Hp. unfold run_generate.
   set (c := apply_flags fl (search f cands)) in *.
   destruct (validate f c) as [e|] eqn:Ev.
   - assert (spec_invalid f (eff_of fl c) = true) as Hi.
@@ -228,31 +219,6 @@ Proof.
       try (left; split; [reflexivity|discriminate]).
     right. eexists. split; [reflexivity|]. split; [reflexivity|].
     intros p Hn. unfold fs_get, fs_put. apply lookup_insert_other. exact Hn.
-Qed.
-
-Lemma precedence_refuted_file : exists f fl,
-  kf_file_invalid f = true /\ spec_invalid f (spec_eff f fl) = true /\
-  exists e f', run_generate f fl = RRun e f' /\ e_output e = "./src/generated".
-Proof.
-  exists [("src-tauri", NProj);
-          ("tauri.conf.json", NDoc (Some (JObj [("plugins", JObj [("typegen",
-             JObj [("validationLibrary", JStr "yup"); ("outputPath", JStr "./outF")])])])))],
-         {| f_project := None; f_output := None; f_validation := None; f_verbose := false;
-            f_visualize := false; f_force := false |}.
-  split; [reflexivity|]. split; [reflexivity|]. eexists. eexists. split; reflexivity.
-Qed.
-
-Lemma precedence_refuted_verbose : exists f fl,
-  kf_file_invalid f = false /\ kf_verbose_file_only f fl = true /\
-  e_verbose (eff_of fl (apply_flags fl (search f cands))) = true /\
-  e_log_verbose (eff_of fl (apply_flags fl (search f cands))) = false /\
-  e_log_verbose (spec_eff f fl) = true.
-Proof.
-  exists [("src-tauri", NProj);
-          ("tauri.conf.json", NDoc (Some (JObj [("plugins", JObj [("typegen", JObj [("verbose", JBool true)])])])))],
-         {| f_project := None; f_output := None; f_validation := None; f_verbose := false;
-            f_visualize := false; f_force := false |}.
-  repeat split; reflexivity.
 Qed.
 
 (* ---------------------------------------------------------------- init *)
